@@ -10,6 +10,46 @@ OPAQUE = {"$opaque": 1}
 
 
 # ---------------------------------------------------------------- value encoding (JSON-able <-> python)
+# unserialisable values:  {"$opaque": 1}                      a bare object()
+#                         {"$bad": {"how": H, "raises": Q}}   an object whose serialisation hooks raise class Q
+#                         {"$deep": n}                        a list nested n deep (recursion limits of the libraries)
+BAD = {}          # id(object) -> spec, for the objects made by dec() (kept alive in BAD_KEEP)
+BAD_KEEP = []
+BAD_HOWS = ["getstate", "slots", "dictprop", "iter", "len"]
+BAD_MSG = "c07 bad object"
+
+
+def make_bad(how, raises):
+    X = resolve_class(raises)
+
+    def boom(*a, **k):
+        raise X(BAD_MSG)
+    if how == "getstate":
+        class Bad(object):
+            def __getstate__(self):
+                boom()
+    elif how == "slots":
+        class Bad(object):
+            __slots__ = ("x", "y")
+
+            def __init__(self):
+                self.x = 1       # y is never assigned: getattr raises AttributeError
+    elif how == "dictprop":
+        class Bad(object):
+            __slots__ = ()
+            __dict__ = property(boom)
+    elif how == "iter":
+        class Bad(dict):
+            __iter__ = items = keys = values = __len__ = boom
+    elif how == "len":
+        class Bad(list):
+            __iter__ = __len__ = __getitem__ = boom
+    else:
+        raise KeyError(how)
+    Bad.__module__ = "c07mod"
+    return Bad()
+
+
 def dec(v):
     """JSON-able case value -> python value"""
     if isinstance(v, list):
@@ -17,12 +57,24 @@ def dec(v):
     if isinstance(v, dict):
         if "$opaque" in v:
             return object()
+        if "$bad" in v or "$deep" in v:
+            if "$bad" in v:
+                o = make_bad(v["$bad"]["how"], v["$bad"]["raises"])
+            else:
+                o = []
+                for _ in range(v["$deep"]):
+                    o = [o]
+            BAD[id(o)] = v
+            BAD_KEEP.append(o)
+            return o
         return {k: dec(x) for k, x in v["$dict"]}
     return v
 
 
 def enc(v):
     """python value -> JSON-able case value; raises ValueError outside the modelled domain"""
+    if id(v) in BAD:
+        return BAD[id(v)]
     if v is None or isinstance(v, (bool, int, str)):
         return v
     if type(v) is list:
@@ -40,7 +92,7 @@ def has_opaque(v):
     if isinstance(v, list):
         return any(has_opaque(x) for x in v)
     if isinstance(v, dict):
-        if "$opaque" in v:
+        if "$opaque" in v or "$bad" in v or "$deep" in v:
             return True
         return any(has_opaque(x) for _, x in v["$dict"])
     return False
@@ -52,6 +104,17 @@ def has_class_key(v):
     if isinstance(v, dict) and "$dict" in v:
         return any(k == "__class__" or has_class_key(x) for k, x in v["$dict"])
     return False
+
+
+def probe_dumps(ser, exc):
+    """the serializer library's verdict on this exception object, measured directly (no daemon involved):
+    None if it serialises, else the class of the error dumps raises"""
+    import Pyro5.serializers
+    try:
+        Pyro5.serializers.serializers[ser].dumps(exc)
+        return None
+    except BaseException as x:
+        return {"cls": qn(type(x)), "mro": [qn(b) for b in type(x).__mro__ if b is not object], "args_repr": repr(x.args)[:300]}
 
 
 # ---------------------------------------------------------------- classes unknown to the receiver
@@ -102,6 +165,8 @@ def whitelisted(q):
 def build_exception(case):
     """construct the exception the server method will raise.  Returns (exc, canonical) or (None, reason).
     canonical = {"cls": qualified name of the actual class, "mro": [...], "args": [...], "attrs": [[k, v]...]}"""
+    BAD.clear()
+    del BAD_KEEP[:]
     cls = resolve_class(case["cls"])
     args = [dec(a) for a in case["args"]]
     try:
@@ -126,9 +191,12 @@ def build_exception(case):
             return None, "setattr-rejects:" + type(x).__name__
     try:
         canon = {"cls": qn(type(e)), "mro": [qn(b) for b in type(e).__mro__ if b is not object],
-                 "args": [enc(a) for a in e.args], "attrs": [[k, enc(v)] for k, v in vars(e).items()]}
+                 "args": [enc(a) for a in e.args], "attrs": [[k, enc(v)] for k, v in vars(e).items()],
+                 "str": str(e), "typerepr": str(type(e))}
     except ValueError as x:
         return None, "outside-domain"
+    except BaseException as x:
+        return None, "str-fails:" + type(x).__name__
     return e, canon
 
 
@@ -210,7 +278,14 @@ FALLBACK_RE = re.compile(r"^Error serializing exception: .*Original exception: <
 SER_MSGS = ("don't know how to serialize class", "unmarshallable object")
 
 
-def classify(x, sent_any):
+def dec_plain(v):
+    try:
+        return dec(v) if not has_opaque(v) else object()
+    except Exception:
+        return object()
+
+
+def classify(x, sent_any, canon=None):
     """observed client-side exception -> outcome dict"""
     import Pyro5.errors as errors
     q = qn(type(x))
@@ -226,6 +301,9 @@ def classify(x, sent_any):
             return {"o": "fallback", "cls": q, "orig": orig, "tb": True}
         if any(s in msg for s in SER_MSGS) and len(x.args) == 1:
             return {"o": "sererr", "cls": q}
+        probe = (canon or {}).get("serr")
+        if probe and q == probe["cls"] and not (q == canon["cls"] and repr(x.args) == repr(tuple(dec_plain(a) for a in canon["args"]))):
+            return {"o": "sererr", "cls": q}     # the error the serializer library raises for this content (measured by probe_dumps)
         try:
             attrs = [[k, ("TB" if k == "_pyroTraceback" else enc(v))] for k, v in vars(x).items()]
             return {"o": "raised", "cls": q, "args": [enc(a) for a in x.args], "attrs": attrs}
@@ -244,7 +322,7 @@ def classify(x, sent_any):
     return {"o": "client", "cls": q, "msg": msg[:200]}
 
 
-def run_call(rig, case, exc):
+def run_call(rig, case, exc, canon=None):
     """perform the call of case["kind"] with serializer case["ser"]; the server raises `exc`."""
     import Pyro5.api as api
     STATE["exc"] = exc
@@ -286,7 +364,7 @@ def run_call(rig, case, exc):
                     raise ValueError(kind)
                 obs["out"] = {"o": "returned", "values": repr(obs["values"])[:200]}
             except BaseException as x:
-                obs["out"] = classify(x, len(c.requests) > nreq)
+                obs["out"] = classify(x, len(c.requests) > nreq, canon)
                 obs["exc_is_pyroerror"] = any(qn(b) == "Pyro5.errors.PyroError" for b in type(x).__mro__)
                 obs["exc_str"] = str(x)[:400]
             obs["client_conn"] = p._pyroConnection is not None
